@@ -162,20 +162,34 @@ def setobjno_harness():
                    inputs=['vp_in_n'], note='establishes the invariant objno_ >= -1 (with the member initialiser {-1})')
 
 
+ONHEADER_CONTRACT = ('__CPROVER_requires(INV && h.num_objs >= 0) '
+                     '__CPROVER_ensures(INV && !(objno_ >= 0 && K > h.num_objs) && opts_read_ == 1) '
+                     '__CPROVER_assigns(objno_, multiobj_, opts_read_)')
+
+
 def onheader_harness():
-    parts = [PRELUDE, decl('solver_objno_specified'), decl('solver_is_objno_specified'), '''
+    """SolverNLHandlerImpl::OnHeader from the option notification to the objno range check.  after_header_ (a
+    std::function: the deferred option parsing of the model manager) may set objno (SetObjNo: >= 0) and multiobj."""
+    parts = [PRELUDE, decl('solver_objno_specified'), decl('solver_is_objno_specified'), decl('solver_notify_start_opts'),
+             decl('solver_notify_end_opts'), '''
 struct { int num_objs; } h;
+int g_after_header;
+/* after_header_(): parses the solver options; objno_ only through SetObjNo (contract: stores a value >= 0) */
+void vp_after_header(void) { if (nondet_bool()) { int v = nondet_int(); __CPROVER_assume(v >= 0); objno_ = v; } multiobj_ = nondet_bool(); }
 #define VP_MAY_THROW_InvalidOptionValue (objno_ >= 0 && K > h.num_objs)
-''', Fn(SIO, r'int objno = solver_\.objno_specified\(\);', 'void vp_OnHeader_objno_check(void)',
+''', Fn(SIO, r'if \(after_header_\) \{\s*solver_\.notify_start_opts', 'void vp_OnHeader_objno_check(void)',
         block_end=r'fmt::format\("expected value between 0 and \{\}", h\.num_objs\)\);',
-        contract='__CPROVER_requires(INV && h.num_objs >= 0) __CPROVER_ensures(!(objno_ >= 0 && K > h.num_objs)) __CPROVER_assigns()',
-        subst=HANDLE, label='mp::SolverNLHandlerImpl::OnHeader [objno range check]'),
+        contract=ONHEADER_CONTRACT,
+        subst=HANDLE + [(r'if \(after_header_\)', 'if (g_after_header)', 1), (r'after_header_\(\);', 'vp_after_header();', 1)],
+        label='mp::SolverNLHandlerImpl::OnHeader [option notification + objno range check]'),
              STATE + '''void harness(void) { vp_state(); h.num_objs = nondet_int(); __CPROVER_assume(h.num_objs >= 0); vp_in_n = h.num_objs;
+  g_after_header = nondet_bool();
   vp_OnHeader_objno_check(); VP_REACH("normal return"); }
 ''']
     return Harness('C12.OnHeader.range', 'C12', parts, enforce='vp_OnHeader_objno_check',
-                   replace=['solver_objno_specified', 'solver_is_objno_specified'],
-                   inputs=['vp_in_objno', 'vp_in_multiobj', 'vp_in_n'], replay=replay)
+                   replace=['solver_objno_specified', 'solver_is_objno_specified', 'solver_notify_start_opts', 'solver_notify_end_opts'],
+                   inputs=['vp_in_objno', 'vp_in_multiobj', 'vp_in_n'], replay=replay,
+                   stubs=['after_header_ callback (option parsing: may set objno >= 0 and multiobj)'])
 
 
 def osegment_harness():
@@ -218,18 +232,21 @@ void handler_OnObj(int index, int type, NumericExpr e) { g_calls++; g_index = in
 
 def lemma_harness():
     names = ['resulting_nobj', 'NeedObj', 'resulting_obj_index', 'solver_objno_used', 'solver_notify_obj_added',
-             'solver_objno_specified', 'solver_is_objno_specified', 'solver_notify_end_opts']
-    parts = [PRELUDE] + [decl(n) for n in names] + [STATE + '''
+             'solver_objno_specified', 'solver_is_objno_specified', 'vp_OnHeader_objno_check']
+    parts = [PRELUDE] + [decl(n) for n in names[:-1]] + ['struct { int num_objs; } h;\nvoid vp_OnHeader_objno_check(void)\n' + ONHEADER_CONTRACT + ';\n',
+                                                         STATE + '''
 void harness(void) {
   vp_state();
   int n = nondet_int(), i = nondet_int(), j = nondet_int();
   __CPROVER_assume(n >= 0 && 0 <= i && i < n && 0 <= j && j < n);
   vp_in_n = n; vp_in_i = i;
+  h.num_objs = n;
+  vp_OnHeader_objno_check();                    /* the header was handled: contract of C12.OnHeader.range (a throw ends the path) */
   int k = solver_objno_specified();
   bool given = solver_is_objno_specified();
-  __CPROVER_assume(!(given && k > n));          /* OnHeader's range check passed (C12.OnHeader.range) */
   int kept = resulting_nobj(n);
   bool need_i = NeedObj(i), need_j = NeedObj(j);
+  vp_in_objno = objno_; vp_in_multiobj = multiobj_;
   if (multiobj_ && !given) {
     /* (a) multi-objective mode on, objno defaulted: all objectives in file order */
     __CPROVER_assert(need_i, "multiobj: every objective is needed");
@@ -248,8 +265,7 @@ void harness(void) {
     int idx = resulting_obj_index(i);
     __CPROVER_assert(0 <= idx && idx < kept, "kept objective index is inside the allocated objectives");
   }
-  /* (d) echo: after options were read, objno_used() is k if an objective was added and 0 otherwise */
-  solver_notify_end_opts();
+  /* (d) echo: once the header has been handled, objno_used() is k if an objective was added and 0 otherwise */
   bool added = nondet_bool();
   obj_added_ = 0;
   if (added) solver_notify_obj_added();
@@ -273,10 +289,22 @@ def replay(lead, inputs, obs):
     if _drv[0] is None:
         _drv[0] = native.build_driver('c12_replay.cc', 'c12_replay', native.MP_SOURCES, ['-O0'])[0]
     n = inputs.get('vp_in_n', '1')
-    args = [_drv[0], str(inputs['vp_in_objno']), str(inputs.get('vp_in_multiobj', '0')).replace('TRUE', '1').replace('FALSE', '0'),
-            str(min(int(n), 40))]
-    p = subprocess.run(args, capture_output=True, text=True)
-    return p.returncode == 1, (p.stdout + p.stderr)[-2000:], ' '.join(args)
+
+    def norm(v):
+        return str(v).replace('TRUE', '1').replace('FALSE', '0')
+    tried = []
+    first = (norm(inputs['vp_in_objno']), norm(inputs.get('vp_in_multiobj', '0')), str(min(max(int(n), 0), 40)))
+    # the verifier's state first, then its neighbourhood (the failed obligation may not depend on every input)
+    cands = [first] + [(str(o), str(m), str(k)) for k in (0, 1, 3) for m in (0, 1) for o in (-1, 0, 1, 2, 3, 4)]
+    out = ''
+    for c in cands:
+        args = [_drv[0]] + list(c)
+        p = subprocess.run(args, capture_output=True, text=True)
+        tried.append(' '.join(args))
+        if p.returncode == 1:
+            return True, (p.stdout + p.stderr)[-2000:], ' '.join(args)
+        out = (p.stdout + p.stderr)[-500:]
+    return False, 'not reproduced by %d native runs (verifier state and neighbourhood); last: %s' % (len(tried), out), tried[0]
 
 
 def harnesses(tier, seed):
